@@ -284,7 +284,8 @@ TIE_NAMES = {'encode_varint': 'utils.encode_varint', 'prepend_compact_size': 'ut
              'sequence_init': 'Sequence.__init__', 'for_input_sequence': 'Sequence.for_input_sequence', 'for_script': 'Sequence.for_script',
              'locktime_for_transaction': 'Locktime.for_transaction', 'add_magic_prefix': 'utils.add_magic_prefix',
              'tagged_hash': 'utils.tagged_hash and schnorr.tagged_hash', 'tapbranch_tagged_hash': 'utils.tapbranch_tagged_hash',
-             'tapleaf_tagged_hash': 'utils.tapleaf_tagged_hash (modulo Script.to_bytes)'}
+             'tapleaf_tagged_hash': 'utils.tapleaf_tagged_hash (modulo Script.to_bytes)',
+             'block_header': 'BlockHeader.get_target_bits / serialize_header / get_block_hash'}
 
 
 def with_ties(ties, level_text, level_note, technique):
